@@ -371,7 +371,7 @@ def c_kstore(raw) -> tuple[str, bool]:
 def geff_version_term(raw) -> str:
     """`Some GEFF_VERSION` when the root's geff document can be judged by the Coq metadata model (Meta.construct): every float a multiple
     of 2^-10, dtype spellings inside the model's table; `None` otherwise (then only the attribute KEYS are compared)."""
-    from harness.c04 import known_dtype_spellings
+    from harness.c07 import dtype_model_ok
 
     doc = geff_doc_of(raw)
     if doc is None:
@@ -388,7 +388,7 @@ def geff_version_term(raw) -> str:
             pm = doc.get(key)
             if isinstance(pm, dict):
                 for e in pm.values():
-                    if isinstance(e, dict) and isinstance(e.get("dtype"), str) and e["dtype"] not in known_dtype_spellings():
+                    if isinstance(e, dict) and isinstance(e.get("dtype"), str) and not dtype_model_ok(e["dtype"]):
                         return "None"
     from geff_spec._schema import GEFF_VERSION
 
